@@ -155,7 +155,7 @@ def covOf (st : St) (op : Op) (ora : Ora) : List String :=
       ++ (if fs.files.any (fun kv => !(fs.synced.contains kv.1)) then ["orphan"] else [])
       ++ (if !ora.torn.isEmpty then ["torn"] else [])
     | .rmdirAll _ => ["rmdirall"]
-    | .unlink p => if st.slots.any (fun kv => kv.2.path == p) then ["unlinkopen"] else []
+    | .unlink p => if [0, 1, 2, 3].any (fun i => match getSlot st i with | some h => h.path == p | none => false) then ["unlinkopen"] else []
     | _ => []
   tags ++ (if ora.coin then ["randsync"] else [])
 
